@@ -3,15 +3,26 @@ import configparser
 import io
 
 import C04
+from productmd.treeinfo import TreeInfo
 
 PROPERTY = "C17"
 
 
-def general_mirrors(sym, shape, opts, focus, main_variant, float_timestamp):
+def general_mirrors(sym, shape, opts, focus, main_variant, float_timestamp, reload_main=None):
     try:
         ti, objs = C04.build(sym, shape, opts, focus)
         if float_timestamp is not None:
             ti.tree.build_timestamp = float_timestamp
+        if reload_main is not None:
+            # the tree that is written was itself read from a file - one that had been written for another main variant.  What
+            # [general] says follows the request of *this* dump (none: the alphabetically first top-level variant), not the file's past
+            f0 = io.StringIO()
+            ti.dump(f0, main_variant=reload_main)
+            f0.seek(0)
+            ti = TreeInfo()
+            ti.loads(f0.read())
+            sym.cover("reloaded")
+            objs = dict((u, ti.variants[u]) for u in objs)
         f = io.StringIO()
         if main_variant is None:
             ti.dump(f)
@@ -94,6 +105,18 @@ def jobs(tier, seed):
                         o["paths"][u] = list(popt) if u in tops else list(PATH_OPTIONS[(pi + 1 + len(u)) % len(PATH_OPTIONS)])
                     out.append({"harness": "general_mirrors", "params": {"shape": shape, "opts": o, "focus": C04._focus(shape, o, k), "main_variant": mv,
                                                                        "float_timestamp": [None, None, 1400000000.75, None, -2.5][k % 5]}})
+    # trees that were read from a file written for another main variant, then written again without a request (and with one)
+    for si, shape in enumerate(("two-top", "dashed", "children")):
+        tops = sorted(u for i, u, par, t in C04.SHAPES[shape] if par is None)
+        kids = sorted(u for i, u, par, t in C04.SHAPES[shape] if par is not None)
+        for ri, rm in enumerate(tops[::-1] + kids[:1]):
+            for mv in ([None, tops[0]] if big else [None]):
+                o = C04._opts(shape, (seed + si + ri) % 12)
+                if o["arch"] not in o["images"]:
+                    o["images"] = {}
+                for u in tops + kids:
+                    o["paths"][u] = list(PATH_OPTIONS[(si + len(u)) % 2])
+                out.append({"harness": "general_mirrors", "params": {"shape": shape, "opts": o, "focus": [], "main_variant": mv, "float_timestamp": None, "reload_main": rm}})
     # extra platforms that have no image table while other platforms have one ([general] platforms follows [tree], not the image tables)
     for si, shape in enumerate(("single", "two-top")):
         for arch in ("x86_64", "src"):
@@ -107,10 +130,11 @@ def jobs(tier, seed):
 
 META = {
     "fp_lemma": True,
-    "expected_covers": {"general_mirrors": ["written"]},
+    "expected_covers": {"general_mirrors": ["written", "reloaded"]},
     "assumptions": C04.META["assumptions"] + [
         "the written text is read by an independent configparser.ConfigParser(interpolation=None, optionxform=str) through the same INI stub",
         "in a third of the jobs the Variant objects were created for another TreeInfo (of the other kind: source vs binary) and then added to the tree that is written",
+        "reload jobs: the tree is first written for one main variant (each top-level variant, a child), read into a fresh TreeInfo and written again without a request",
         "main variant: none (default = alphabetically first top-level variant), each top-level variant, or each nested variant by its UID; float timestamps from a pool, integer timestamps symbolic",
     ],
 }
